@@ -2,6 +2,8 @@
 """Prints the prompt for a fresh seeding sub-agent: property text + scratch worktree only (nothing from /verif)."""
 import json, sys, os, subprocess
 pid, tag, focus = sys.argv[1], sys.argv[2], (sys.argv[3] if len(sys.argv) > 3 else "")
+count = int(sys.argv[4]) if len(sys.argv) > 4 else 2
+WORDS = {2: "TWO", 3: "THREE", 4: "FOUR"}
 ROOT = os.path.dirname(os.path.dirname(os.path.abspath(__file__)))
 p = [json.loads(l) for l in open(os.path.join(ROOT, "properties.jsonl")) if json.loads(l)["id"] == pid][0]
 wt = "/tmp/seed-%s-%s" % (pid, tag)
@@ -13,14 +15,14 @@ The property (a semantic guarantee users of xtl rely on) is:
 
 {prop}
 
-Task: produce TWO different, independent changes to the library sources (include/xtl/*.hpp) in the worktree, each of which
+Task: produce {countw} different, independent changes to the library sources (include/xtl/*.hpp) in the worktree, each of which
  (a) BREAKS the property above (some input / sequence of operations / configuration now gives a wrong result that the statement forbids),
  (b) still COMPILES and still PASSES the entire existing test suite, unmodified (build: `cmake -G Ninja -S {wt} -B {wt}/_build -DBUILD_TESTS=ON -DCMAKE_BUILD_TYPE=RelWithDebInfo -DCMAKE_CXX_FLAGS=-Wno-error -Ddoctest_DIR=/usr/lib/cmake/doctest -Dnlohmann_json_DIR=/root/miniconda/share/cmake/nlohmann_json && cmake --build {wt}/_build -j8 && ctest --test-dir {wt}/_build -j8`; all 24 ctest entries must pass),
  (c) looks like something a maintainer could plausibly commit (a refactoring slip, an "optimisation", an off-by-one, a dropped normalisation step, a wrong operand, a reordered pair of steps, a removed guard on one overload) – not vandalism, no dead code, no comments pointing at the change,
  (d) needs something SPECIFIC to manifest – a multi-step sequence of operations, a particular size/alignment/boundary value, an unusual input, a particular template configuration, or two cooperating sites that each look fine alone – rather than being exposed at once by ordinary use. {focus}
 
-For each change deliver, in {wt}/out/<n>/ (n = 1, 2):
+For each change deliver, in {wt}/out/<n>/ (n = 1..{count}):
  * patch.diff – `git diff` of the library change only (relative to the worktree root, applies with `git apply` on a clean checkout),
  * demo.cpp – a small standalone program (g++ -std=c++14 -I include demo.cpp) that exits 0 and prints OK on the unchanged library and exits non-zero (prints what went wrong) with the change applied; it must demonstrate a violation of the property *statement*, not merely a difference in unspecified behaviour,
  * README.md – which clause of the property is broken, what is needed for it to manifest, and why the existing tests do not notice.
-Verify all of it yourself: for each change, on a clean worktree state (`git -C {wt} checkout -- include`) apply the patch, build+run the full test suite (must pass), build+run demo.cpp (must fail); then revert and run demo.cpp again (must pass). Leave the worktree clean of the library change at the end (`git -C {wt} checkout -- include`), keep only out/. Remove {wt}/_build when finished. The two changes must touch different mechanisms. Report in your final message, for each change: one-paragraph description, the exact commands you ran and their outcomes.""".format(wt=wt, prop=json.dumps(p, indent=1), focus=focus))
+Verify all of it yourself: for each change, on a clean worktree state (`git -C {wt} checkout -- include`) apply the patch, build+run the full test suite (must pass), build+run demo.cpp (must fail); then revert and run demo.cpp again (must pass). Leave the worktree clean of the library change at the end (`git -C {wt} checkout -- include`), keep only out/. Remove {wt}/_build when finished. The changes must touch different mechanisms. Report in your final message, for each change: one-paragraph description, the exact commands you ran and their outcomes.""".format(wt=wt, prop=json.dumps(p, indent=1), focus=focus, count=count, countw=WORDS.get(count, str(count))))
